@@ -46,14 +46,23 @@ func v20NewCollector(w *v20World) *Collector {
 	var pfs []confmap.ProviderFactory
 	for id := 0; id <= w.nAux; id++ {
 		id := id
-		pfs = append(pfs, confmap.NewProviderFactory(func(confmap.ProviderSettings) confmap.Provider { return &v20Provider{w: w, id: id} }))
+		pfs = append(pfs, confmap.NewProviderFactory(func(ps confmap.ProviderSettings) confmap.Provider {
+			if id == 0 {
+				w.provLogger = ps.Logger
+			}
+			return &v20Provider{w: w, id: id}
+		}))
 	}
 	nop := zap.WrapCore(func(zapcore.Core) zapcore.Core { return zapcore.NewNopCore() })
+	logOpts := []zap.Option{nop}
+	if w.realLogs {
+		logOpts = nil
+	}
 	col, err := NewCollector(CollectorSettings{
 		BuildInfo:             component.NewDefaultBuildInfo(),
 		Factories:             w.factories,
 		SkipSettingGRPCLogger: true,
-		LoggingOptions:        []zap.Option{nop},
+		LoggingOptions:        logOpts,
 		ConfigProviderSettings: ConfigProviderSettings{ResolverSettings: confmap.ResolverSettings{
 			URIs: uris, ProviderFactories: pfs,
 		}},
@@ -281,6 +290,119 @@ func v20FreeRun(idx int, out *vOut) {
 	}
 }
 
+// ---- log stress: providers logging through the collector's logger while configurations are (re)loaded ----
+// NewCollector hands the configuration providers a logger whose core (collectorCore) is swapped under a
+// write lock by every setupConfigurationComponents (buffered core -> the service's logger).  Provider
+// goroutines log through it all the time (file watchers, HTTP pollers do); start-up and every reload must
+// still complete, and a stop request must still end the run in Closed.
+func v20LogStress(idx int, out *vOut) {
+	r := vNewRand(uint64(0xC20D<<20) + uint64(idx))
+	w := v20NewWorld()
+	w.nogate, w.realLogs = true, true
+	w.nURI, w.nAux = 1+r.Intn(2), r.Intn(2)
+	col := v20NewCollector(w)
+	ctx, cancel := context.WithCancel(context.Background())
+	defer cancel()
+	runDone := make(chan struct{})
+	var runErr error
+	go func() {
+		defer close(runDone)
+		runErr = col.Run(ctx)
+	}()
+	stopLog := make(chan struct{})
+	var lwg sync.WaitGroup
+	for k := 0; k < 4; k++ {
+		lwg.Add(1)
+		go func(k int) {
+			defer lwg.Done()
+			for n := 0; ; n++ {
+				select {
+				case <-stopLog:
+					return
+				default:
+				}
+				switch n % 3 {
+				case 0:
+					w.provLogger.Debug("v20 provider log", zap.Int("goroutine", k))
+				case 1:
+					w.provLogger.Info("v20 provider log", zap.Int("n", n))
+				default:
+					w.provLogger.With(zap.Int("k", k)).Warn("v20 provider log")
+				}
+				if n&15 == 15 {
+					runtime.Gosched()
+				}
+			}
+		}(k)
+	}
+	fail := func(kind, detail string) { out.Oracle(kind, fmt.Sprintf("log-stress #%d seed-salt 0xC20D", idx), detail) }
+	waitState := func(want State, what string) bool {
+		for t0 := time.Now(); time.Since(t0) < v20Deadline; {
+			if col.GetState() == want {
+				return true
+			}
+			select {
+			case <-runDone:
+				return col.GetState() == want
+			default:
+			}
+			time.Sleep(200 * time.Microsecond)
+		}
+		fail("run-never-returns", fmt.Sprintf("deadline exceeded: %s while provider goroutines log through the collector's logger; state=%s generation=%d", what, col.GetState(), w.retrieveN))
+		v20DeadCount.Add(1)
+		return false
+	}
+	ok := waitState(StateRunning, "start-up does not reach Running")
+	reloads := 6 + r.Intn(10)
+	done := 0
+	for i := 0; ok && i < reloads; i++ {
+		before := w.retrieveCount()
+		select {
+		case col.signalsChannel <- syscall.SIGHUP:
+		default:
+		}
+		for t0 := time.Now(); ok && w.retrieveCount() == before; {
+			if time.Since(t0) > v20Deadline {
+				ok = waitState(StateRunning, "a reload does not start")
+				break
+			}
+			time.Sleep(100 * time.Microsecond)
+		}
+		ok = ok && waitState(StateRunning, "a reload does not complete")
+		done++
+	}
+	col.Shutdown()
+	if ok {
+		ok = waitState(StateClosed, "the run does not end in Closed after Shutdown()")
+	}
+	close(stopLog)
+	if !v20WaitTimeout(&lwg) {
+		// the logging goroutines themselves are stuck inside the logger: the lock of the core handed to
+		// the providers is never released again
+		fail("logging-blocked", fmt.Sprintf("provider goroutines logging through the collector's logger never return (state=%s generation=%d)", col.GetState(), w.retrieveN))
+		v20DeadCount.Add(3)
+	}
+	close(w.quit)
+	if !ok {
+		cancel()
+	}
+	select {
+	case <-runDone:
+		if ok && runErr != nil {
+			fail("stop-not-closed", fmt.Sprintf("log-stress run returned %v", runErr))
+		}
+	case <-time.After(v20Deadline):
+	}
+	out.Stat("logstress_runs", 1)
+	out.Stat("logstress_reloads", done)
+}
+
+func (w *v20World) retrieveCount() int {
+	w.mu.Lock()
+	defer w.mu.Unlock()
+	return w.retrieveN
+}
+
 func TestVerifC20Race(t *testing.T) {
 	out := vOpen()
 	defer out.Close()
@@ -355,6 +477,23 @@ func TestVerifC20Race(t *testing.T) {
 					return
 				}
 				v20FreeRun(i, out)
+			}
+		}()
+	}
+	wg.Wait()
+	// ---- log stress ------------------------------------------------------------------------------------------
+	nlog := vBudget(24, 6)
+	next.Store(0)
+	for wk := 0; wk < 4; wk++ {
+		wg.Add(1)
+		go func() {
+			defer wg.Done()
+			for {
+				i := int(next.Add(1)) - 1
+				if i >= nlog || v20DeadCount.Load() >= 3 {
+					return
+				}
+				v20LogStress(i, out)
 			}
 		}()
 	}
